@@ -297,6 +297,15 @@ pub fn worker_main(
         }),
         "engine_error": outcome.engine_error,
     });
+    // the hashes of the distinct non-trivial cases travel as raw little-endian u64s (there can be millions)
+    let mut raw: Vec<u8> = Vec::with_capacity(outcome.stats.nontrivial.len() * 8);
+    for hash in &outcome.stats.nontrivial {
+        raw.extend_from_slice(&hash.to_le_bytes());
+    }
+    if let Err(err) = std::fs::write(report_path.with_extension("hashes"), raw) {
+        eprintln!("worker {shard}: cannot write hashes: {err}");
+        return 2;
+    }
     if let Err(err) = std::fs::write(report_path, serde_json::to_vec(&report).unwrap()) {
         eprintln!("worker {shard}: cannot write report: {err}");
         return 2;
@@ -468,6 +477,7 @@ pub fn parent_main(property: &dyn Property, tier: Tier, seed: u64) -> i32 {
         Tier::Thorough => 4 * 3600,
     });
     let mut stats = Stats::default();
+    let mut all_hashes: Vec<u64> = Vec::new();
     for (shard, mut child, report_path) in children {
         let status = loop {
             match child.try_wait() {
@@ -520,6 +530,11 @@ pub fn parent_main(property: &dyn Property, tier: Tier, seed: u64) -> i32 {
             continue;
         };
         stats.merge(Stats::from_json(&report["stats"]));
+        if let Ok(raw) = std::fs::read(report_path.with_extension("hashes")) {
+            for chunk in raw.chunks_exact(8) {
+                all_hashes.push(u64::from_le_bytes(chunk.try_into().unwrap()));
+            }
+        }
         if let Some(msg) = report["engine_error"].as_str() {
             engine_errors.push(format!("worker {shard}: {msg}"));
         }
@@ -530,6 +545,10 @@ pub fn parent_main(property: &dyn Property, tier: Tier, seed: u64) -> i32 {
         }
     }
     let _ = std::fs::remove_dir_all(crate::util::scratch_root());
+    all_hashes.sort_unstable();
+    all_hashes.dedup();
+    let distinct_nontrivial = all_hashes.len();
+    drop(all_hashes);
 
     for (signature, count) in &stats.known_hits {
         if let Some(known) = findings.is_known(id, signature) {
@@ -550,7 +569,7 @@ pub fn parent_main(property: &dyn Property, tier: Tier, seed: u64) -> i32 {
     let mut coverage = json!({
         "evaluations": evaluations,
         "generated_cases": stats.cases,
-        "distinct_nontrivial": stats.nontrivial.len(),
+        "distinct_nontrivial": distinct_nontrivial,
         "rule": property.rule(),
         "samples": stats.samples,
         "classes": stats.classes,
@@ -595,7 +614,7 @@ pub fn parent_main(property: &dyn Property, tier: Tier, seed: u64) -> i32 {
         tier.name(),
         stats.cases,
         evaluations,
-        stats.nontrivial.len(),
+        distinct_nontrivial,
         wall
     );
     let class_line: Vec<String> = stats
@@ -623,7 +642,7 @@ pub fn parent_main(property: &dyn Property, tier: Tier, seed: u64) -> i32 {
     if !engine_errors.is_empty() {
         return 2;
     }
-    if stats.nontrivial.len() < 2 {
+    if distinct_nontrivial < 2 {
         println!("ENGINE-ERROR: fewer than 2 distinct non-trivial cases were explored");
         return 2;
     }
